@@ -265,6 +265,10 @@ func propC11(w *World, r *Report) {
 	} else {
 		r.Unknown("H1", "processor start arguments", "-", dd.Err.Error())
 	}
+	// "every frame of the finished file is a frame that was sent": header and frames come through one buffered reader
+	if ci3 := analyseHandleConn(w); ci3.err == nil {
+		checkSingleBufferedReader(w, r, newTermEnv(w), "H1", "the camera description and every recorded frame are read through the same bufio.Reader", ci3.fn, ci3.hdrCall, []*ssa.Call{ci3.probe, ci3.rest})
+	}
 	checkHeaderInfoGetters(w, r)
 	checkConfigMapping(w, r)
 	checkParserSelection(w, r, ci2)
